@@ -103,3 +103,115 @@ Proof.
     + exact I.
   - repeat (split; [vm_compute; reflexivity|]). repeat constructor; apply unrelated_when; vm_compute; reflexivity.
 Qed.
+
+(* ---- the symmetric statement: a family of providers (indexed by nat; those that never act stay idle) and any number of
+   browsers of ANY of their types.  Each browser whose type is that of provider i, and unrelated to the type of every other
+   provider, reports after every step exactly what provider i serves. ---- *)
+Record bnode := mkBnode { bn_type : bytes; bn_world : world }.
+Definition fresh_bnode (b : bnode) : Prop := bn_world b = mkWorld [empty_cache] [mkBrowser (Some (bn_type b)) 0 [] [] []] 0.
+Definition upd (P : nat -> other) (k : nat) (o : other) : nat -> other := fun j => if Nat.eqb j k then o else P j.
+Definition bn_hear (nowb : Z) (es : list eff) (b : bnode) : bnode := mkBnode (bn_type b) (fst (bhear nowb (bn_world b) es)).
+
+Inductive netS : (nat -> other) -> list bnode -> Prop :=
+| nS_init P bs : (forall j, fresh_other (P j)) -> Forall fresh_bnode bs -> netS P bs
+| nS_act P bs k now nowb ev : netS P bs -> one_provider (o_comp (P k)) ev -> ev_type_ok (o_type (P k)) ev ->
+    netS (upd P k (mkOther (o_type (P k)) (fst (comp_handle now (o_comp (P k)) ev)) (listen (o_link (P k)) (snd (comp_handle now (o_comp (P k)) ev)))))
+         (map (bn_hear nowb (snd (comp_handle now (o_comp (P k)) ev))) bs).
+
+Definition follows (P : nat -> other) (i : nat) (b : bnode) : Prop :=
+  bn_type b = o_type (P i) /\ (forall j, j <> i -> Unrelated (bn_type b) (o_type (P j))) /\
+  bn_type b <> [] /\ bytes_eqb (bn_type b) browse_type = false.
+
+Lemma upd_type P k c L j : o_type (upd P k (mkOther (o_type (P k)) c L) j) = o_type (P j).
+Proof. unfold upd. destruct (Nat.eqb j k) eqn:E; [apply Nat.eqb_eq in E; subst j; reflexivity|reflexivity]. Qed.
+
+Lemma follows_upd P k c L i b : follows (upd P k (mkOther (o_type (P k)) c L)) i b -> follows P i b.
+Proof.
+  intros (A & B & C & D). split; [rewrite A; apply upd_type|]. split; [|split; assumption].
+  intros j Hj. rewrite <- (upd_type P k c L j). apply B, Hj.
+Qed.
+
+Lemma other_script_ignored T T' nowb L' es L w : Unrelated T T' -> bytes_eqb T browse_type = false ->
+  Script T' L' es -> BI T L w -> type_is T w -> bhear nowb w es = (w, []).
+Proof.
+  intros Un Hbr S B (b0 & Hb0 & Ht0).
+  inversion B as [c0 b1 Ce Hty Hc Hsv|p s t nm c0 b1 G Hh Hty Hc Hsv]; subst; cbn [w_browsers nth_error] in Hb0; injection Hb0 as <-;
+    apply (script_ignored T T' nowb Un Hbr L' es S c0 b1 Ht0).
+Qed.
+
+Theorem every_browser_follows_its_provider P bs :
+  netS P bs -> forall i b, In b bs -> follows P i b -> reports_served (bn_type b) (o_comp (P i)) (bn_world b).
+Proof.
+  intro R.
+  assert (Inv : (forall j, other_inv (P j)) /\
+                forall i b, In b bs -> follows P i b -> BI (bn_type b) (o_link (P i)) (bn_world b) /\ type_is (bn_type b) (bn_world b)).
+  { induction R as [P bs Fr Fb|P bs k now nowb ev R [IO IB] One Ty].
+    - split.
+      + intro j. destruct (Fr j) as (l' & i' & Ec & El). unfold other_inv. rewrite Ec, El.
+        split; [apply (lreach_inv _ _ (lr_init l' i'))|]. constructor; cbn [cp_prov no_prov pv_exists fresh_comp]; discriminate.
+      + intros i b Hb _. destruct (Fr i) as (l' & i' & _ & El). rewrite El.
+        rewrite (proj1 (Forall_forall _ _) Fb b Hb). split.
+        * apply bi_none; try reflexivity. left. reflexivity.
+        * eexists. split; reflexivity.
+    - destruct (IO k) as [Ik Jk]. split.
+      + intro j. unfold upd. destruct (Nat.eqb j k); [|apply IO]. unfold other_inv. cbn [o_comp o_link o_type].
+        split; [apply comp_step_inv; assumption|apply (comp_step_T (o_type (P k)) now (o_comp (P k)) ev (o_link (P k)) Ik Jk One Ty)].
+      + intros i b' Hb' F'. apply in_map_iff in Hb' as (b & <- & Hb). unfold bn_hear in *. cbn [bn_type bn_world] in *.
+        assert (F : follows P i b).
+        { eapply (follows_upd P k _ _ i (mkBnode (bn_type b) (bn_world b))). exact F'. }
+        destruct (IB i b Hb F) as [B Tw]. destruct F as (Et & Un & HT & Hbr).
+        unfold upd. destruct (Nat.eqb i k) eqn:E.
+        * apply Nat.eqb_eq in E. subst i. cbn [o_link]. rewrite Et in *. split.
+          -- apply (pair_step bhear bhear_app bhear_silent hear_goodbye_effect hear_fresh_effect hear_over_effect (o_type (P k)) now nowb (o_comp (P k)) ev (o_link (P k)) (bn_world b) HT Hbr Ik Jk B One Ty).
+          -- apply bhear_type, Tw.
+        * apply Nat.eqb_neq in E.
+          assert (Ek : bhear nowb (bn_world b) (snd (comp_handle now (o_comp (P k)) ev)) = (bn_world b, [])).
+          { assert (Uk : Unrelated (bn_type b) (o_type (P k))) by (apply Un; intro; apply E; congruence).
+            apply (other_script_ignored (bn_type b) (o_type (P k)) nowb (o_link (P k)) _ (o_link (P i)) (bn_world b) Uk Hbr
+                     (step_script (o_type (P k)) now (o_comp (P k)) ev (o_link (P k)) Ik Jk One Ty) B Tw). }
+          rewrite Ek. cbn [fst]. split; assumption. }
+  destruct Inv as [IO IB]. intros i b Hb F. destruct (IO i) as [Ii _].
+  apply (BI_reports_served (bn_type b) (o_comp (P i)) (o_link (P i)) (bn_world b) Ii (proj1 (IB i b Hb F))).
+Qed.
+
+(* non-vacuity: provider 0 serves "_t.", provider 1 serves "_b.", all further ones (idle) are of type "_c."; they register,
+   create, update and complete their probes in alternation; one browser of "_t." and one of "_b." listen to everything.
+   Both providers end confirmed and each browser meets [follows] for its provider. *)
+Definition P0 : nat -> other := fun j =>
+  match j with
+  | O => mkOther [95; 116; 46]%N (fresh_comp [118; 109]%N []) []
+  | S O => mkOther [95; 98; 46]%N (fresh_comp [119]%N []) []
+  | _ => mkOther [95; 99; 46]%N (fresh_comp [120]%N []) []
+  end.
+Definition B0 : list bnode :=
+  [mkBnode [95; 116; 46]%N (mkWorld [empty_cache] [mkBrowser (Some [95; 116; 46]%N) 0 [] [] []] 0);
+   mkBnode [95; 98; 46]%N (mkWorld [empty_cache] [mkBrowser (Some [95; 98; 46]%N) 0 [] [] []] 0)].
+
+Example symmetric_nonvacuous :
+  exists P bs, netS P bs /\ h_reg (cp_host (o_comp (P 0%nat))) = true /\ h_reg (cp_host (o_comp (P 1%nat))) = true
+    /\ map bn_type bs = map bn_type B0 /\ forall j, o_type (P j) = o_type (P0 j).
+Proof.
+  eexists. eexists. split.
+  - eapply (nS_act _ _ 1 2000 2000 (EvTimer T_REG)).
+    + eapply (nS_act _ _ 0 2000 2000 (EvTimer T_REG)).
+      * apply (nS_init P0 B0).
+        -- intros [|[|j]]; eexists; eexists; split; reflexivity.
+        -- repeat constructor.
+      * exact I.
+      * exact I.
+    + exact I.
+    + exact I.
+  - split; [vm_compute; reflexivity|]. split; [vm_compute; reflexivity|]. split; [vm_compute; reflexivity|].
+    intros [|[|j]]; reflexivity.
+Qed.
+
+(* ... and with those types each of the two browsers meets [follows] for its provider ([follows] only reads the types) *)
+Example symmetric_follows P b0 b1 : (forall j, o_type (P j) = o_type (P0 j)) -> map bn_type [b0; b1] = map bn_type B0 ->
+  follows P 0 b0 /\ follows P 1 b1.
+Proof.
+  intros HP E. cbn [map B0 bn_type] in E. injection E as E0 E1. unfold follows. rewrite E0, E1, !HP. split.
+  - split; [reflexivity|]. split; [|split; [discriminate|reflexivity]].
+    intros [|[|j]] Hj; rewrite HP; [congruence| |]; apply unrelated_when; reflexivity.
+  - split; [reflexivity|]. split; [|split; [discriminate|reflexivity]].
+    intros [|[|j]] Hj; rewrite HP; [|congruence|]; apply unrelated_when; reflexivity.
+Qed.
